@@ -29,9 +29,13 @@ def q(v):
     return int(round(r))
 
 
-def geom(raster):
-    return {"xmin": q(raster.xmin), "ymin": q(raster.ymin), "rx": q(raster.resolution[0]), "ry": q(raster.resolution[1]),
+def geom(raster, sc=1):
+    return {"xmin": q(raster.xmin / sc), "ymin": q(raster.ymin / sc), "rx": q(raster.resolution[0] / sc), "ry": q(raster.resolution[1] / sc),
             "ncol": int(raster.ncol), "nrow": int(raster.nrow)}
+
+
+DECI = 0.1       # a third of the calls are made in tenths (coordinates and cell size x 0.1: NOT exact in binary floating point; the grid
+                 # the raster reports is scaled back and snapped to the lattice, observations on a cell border may go to either side)
 
 
 def absval(v, nodata):
@@ -51,7 +55,7 @@ def absval(v, nodata):
     return [1, f.numerator, f.denominator]
 
 
-def make_collection(tracks):
+def make_collection(tracks, sc=1):
     """tracks: list of lists of (x, y, value|None) in ground units"""
     from tracklib.core.track import Track
     from tracklib.core.obs import Obs
@@ -77,7 +81,7 @@ def make_collection(tracks):
             return np.int64(v) if carrier == 2 else int(v)
         return float(v)
     for pts in tracks:
-        tr = Track([Obs(ENUCoords(float(x), float(y), 0.0), ObsTime()) for (x, y, v) in pts])
+        tr = Track([Obs(ENUCoords(float(x) * sc, float(y) * sc, 0.0), ObsTime()) for (x, y, v) in pts])
         # the tracks of a collection need not store their features in the same order: every other track has an extra
         # feature first and creates 'v' before 'tag'
         if len(out) % 2:
@@ -101,9 +105,13 @@ def call_summarize(tracks, res, margin):
     e = {"ev": "sum", "raised": False, "obs": [[q(x), q(y), enc(v)] for (x, y, v) in flat],
          "g": {"xmin": 0, "ymin": 0, "rx": 1, "ry": 1, "ncol": 1, "nrow": 1}, "cells": [], "tagcount": [], "grids": [],
          "cfg": "res=%s margin=%s" % (res, margin)}
+    sc = DECI if (len(flat) + int(sum(8 * x + 16 * y for (x, y, _v) in flat))) % 3 == 0 else 1
+    if sc != 1:
+        e["cfg"] += " unit=0.1"
+        res = (res[0] * sc, res[1] * sc)
     try:
         with core.quiet():
-            coll = make_collection(tracks)
+            coll = make_collection(tracks, sc)
             # the six requests on the feature come in an order that depends on the call (every cell list is shared by all of them)
             ops = [co_count, co_sum, co_min, co_max, co_avg, co_median]
             h = (len(flat) * 7 + sum(int(8 * x) + 3 * int(8 * y) for (x, y, _v) in flat)) % 720
@@ -113,7 +121,7 @@ def call_summarize(tracks, res, margin):
                 h //= k
             e["cfg"] += " order=" + ",".join(o.__name__ for o in order)
             r = summarize(coll, ["tag"] + ["v"] * 6, [co_count] + order, resolution=res, margin=margin, verbose=False)
-        e["g"] = geom(r)
+        e["g"] = geom(r, sc)
         nd = r.getNoDataValue()
         cells = []
         vg = r.collectionValuesGrid["tag"]
@@ -137,15 +145,16 @@ def call_getcell(W, H, res, margin, pts):
     from tracklib.core.raster import Raster
     from tracklib.core.bbox import Bbox
     from tracklib.core.obs_coords import ENUCoords
+    sc = DECI if (W + 2 * H + int(res[0] * 4) + int(margin * 8)) % 3 == 0 else 1
     with core.quiet():
-        r = Raster(bbox=Bbox(ENUCoords(0.0, 0.0), ENUCoords(float(W), float(H))), resolution=res, margin=margin)
-    g = geom(r)
+        r = Raster(bbox=Bbox(ENUCoords(0.0, 0.0), ENUCoords(float(W) * sc, float(H) * sc)), resolution=(res[0] * sc, res[1] * sc) if sc != 1 else res, margin=margin)
+    g = geom(r, sc)
     out = []
     for (x, y) in pts:
-        e = {"ev": "cell", "g": g, "P": [q(x), q(y)], "none": False, "col": 0, "row": 0, "cfg": "res=%s margin=%s" % (res, margin)}
+        e = {"ev": "cell", "g": g, "P": [q(x), q(y)], "none": False, "col": 0, "row": 0, "cfg": "res=%s margin=%s unit=%s" % (res, margin, sc)}
         try:
             with core.quiet():
-                c = r.getCell(ENUCoords(float(x), float(y), 0.0))
+                c = r.getCell(ENUCoords(float(x) * sc, float(y) * sc, 0.0))
             if c is None:
                 e["none"] = True
             else:
